@@ -29,6 +29,8 @@ for d in sorted(os.listdir(root)):
 def run(item):
     d, m = item
     extra = ["--race"] if any("-race" in r for r in m.get("ran", [])) else []
+    if m.get("also_check"):
+        extra.append("--also=" + ",".join(m["also_check"]))
     out = subprocess.run(["python3", "/verif/tools/seed_eval.py", d, m["breaks_property"], os.path.join(root, d)] + extra,
                          stdout=subprocess.PIPE).stdout.decode()
     try:
@@ -36,7 +38,7 @@ def run(item):
     except Exception:
         return d, None, out[-300:]
     m["confirmed"] = {k: res.get(k) for k in ("applies", "builds", "suite_passes", "demo_passes_without", "demo_fails_with")}
-    m["check_result"] = {"exit": res.get("check_rc"), "caught": res.get("caught"), "violations": res.get("violations")}
+    m["check_result"] = {"exit": res.get("check_rc"), "caught": res.get("caught"), "violations": res.get("violations"), "caught_by": res.get("caught_by")}
     json.dump(m, open(os.path.join(root, d, "meta.json"), "w"), indent=1)
     return d, res, ""
 with ThreadPoolExecutor(jobs) as ex:
